@@ -138,6 +138,13 @@ M = [
   "            setup_signal_handling()\n", "            pass\n"),
  ('C20', 'i02-sigterm-handler-reset-after-each-process', 'rebench/subprocess_with_timeout.py',
   "    finally:\n        was_stopped = running.discard(thread)\n", "    finally:\n        was_stopped = running.discard(thread)\n        if current_thread() is main_thread():\n            signal.signal(signal.SIGTERM, signal.SIG_DFL)\n"),
+ ('C20', 'o01-startup-warning-failure-not-handled', 'rebench/denoise_client.py',
+  "            restore_noise(denoise_result, False, ui)\n            raise", "            raise"),
+ ('C20', 'o02-empty-path-left-behind', 'rebench/environment.py',
+  '                os.environ.pop("PATH", None)', '                pass'),
+ ('C20', 'o03-final-warning-before-restore', 'rebench/denoise_client.py',
+  "    num_cores = get_number_of_cores()\n\n    env = os.environ\n    values = set(denoise_result.details.values())",
+  "    if not denoise_result.succeeded and show_warning:\n        ui.error(denoise_result.warn_msg)\n    num_cores = get_number_of_cores()\n\n    env = os.environ\n    values = set(denoise_result.details.values())"),
  ('C20', 'n14-num-cores-minus-one', 'rebench/executor.py',
   'cmdline += "--num-cores " + str(num_cores) + " "', 'cmdline += "--num-cores " + str(num_cores - 1) + " "'),
 ]
